@@ -5,7 +5,7 @@ the tree taken before the call (OLD.struct) and compared after it; exception cla
 Oracle: fallback on (default) -> returns a str, never raises; fallback off -> returns a str or raises only
 SQLAlchemyError / NotImplementedError; struct(tree) after == before, also when the call raised."""
 from vf import core, monitors
-from vf.props._parsework import base_statements
+from vf.props._parsework import base_statements, gram_statements
 
 ID = 'C17'
 LEVEL = 'exploration'
@@ -111,6 +111,7 @@ def run_shard(ctx):
     acc = ctx.acc
     renders = {n: SqlalchemyRender(n) for n in NAMES}
     base = [('deep', s) for s in DEEP] + [('extra', s) for s in EXTRA] + base_statements(ctx.seed, 3000 if ctx.tier == 'quick' else 30000)
+    base += gram_statements(ctx.seed, 2500 if ctx.tier == 'quick' else 15000)
     idx = -1
     for bi, (label, text) in enumerate(base):
         for dialect in ('mindsdb', 'mysql', 'sqlite'):
